@@ -453,7 +453,7 @@ def check_property(prop, tier, seed, relock=False):
     for u in unsupported:
         print(f'UNDECIDED property={prop} unsupported construct: {u}')
     for k in undecided:
-        print(f'UNDECIDED property={prop} obligation {k}: no solver answered within budget')
+        print(f'UNDECIDED property={prop} {k}' if ' ' in k else f'UNDECIDED property={prop} obligation {k}: no solver answered within budget')
     for k in missing:
         print(f'UNDECIDED property={prop} contract binding lost: locked obligation {k} is no longer generated')
     for e in checker_errors:
@@ -519,7 +519,19 @@ def run_selfcheck(prop):
         env['PYVC_NO_SELFCHECK'] = '1'
         p_ = subprocess.run([sys.executable, '-m', 'pyvc.cli', prop, '--tier', 'quick'], capture_output=True, text=True, cwd=HERE, env=env, timeout=3000)
         return p_.returncode
+    # (a spread of at most PYVC_SELFCHECK_MAX seeded changes - default 4 - keeps the tier within minutes; tools/seeded.py runs them all)
+    ds = []
     for d in sorted(glob.glob(os.path.join(HERE, 'seeded', prop + '-*'))):
+        try:
+            if json.load(open(os.path.join(d, 'meta.json'))).get('obsolete'):
+                continue
+        except Exception:
+            pass
+        ds.append(d)
+    cap = int(os.environ.get('PYVC_SELFCHECK_MAX', '4') or 4)
+    out['seeded_available'] = len(ds)
+    ds = ds[::max(1, len(ds) // cap)][:cap]
+    for d in ds:
         scr, ok = scratch_with(os.path.join(d, 'patch.diff'))
         try:
             out['seeded'].append({'id': os.path.basename(d), 'patch_applies': ok, 'check_exit': run(scr) if ok else None})
